@@ -14,7 +14,7 @@ CONE = ["Proofs/GeneratedProofs.v", "Proofs/ComposeProofs.v", "Proofs/Terminatio
         "Proofs/GenerateProofs.v", "Proofs/GraphProofs.v", "Proofs/KmerProofs.v", "Proofs/ShuffleProofs.v", "Coder.v",
         "Graph.v", "CoderSpec.v", "FastSpec.v", "GraphSpec.v", "Spec.v", "Py.v"]
 MODEL_FUNCTIONS = ["connect_coding_graph", "encode"]
-RULE = ("graphs returned by the implementation's own connect_coding_graph for random masks and LocalBioFilter masks of order "
+RULE = ("graphs returned by the implementation's own connect_coding_graph for random masks, LocalBioFilter masks and structured threshold-1 masks (funnels of equal-length sibling chains, trees off a closed core, de Bruijn chains) of order "
         "1..4, thresholds 1..4; every kind of retained start vertex; messages of length 0..64 (thorough ..512); tables none / "
         "permutation; both modes.  Observables: the strand, the number of accessor row reads (counted through an ndarray "
         "proxy; must equal 2 x strand length and stay within 2 x L x |V|), the walk property, the tightness inequalities.  A "
@@ -41,6 +41,13 @@ def payloads(rng, tier):
         yield "generated", {"k": k, "mask": gen.random_mask(rng, k), "t": rng.choice([1, 1, 1, 2, 2, 3, 4]),
                             "vsel": rng.random(), "bits": gen.message(rng, mlen), "fast": rng.random() < 0.3,
                             "table_seed": rng.choice([None, rng.randrange(1 << 30)])}
+    # structured masks whose threshold-1 trimming cascades are deep and wide: sibling chains merging into a doomed funnel, trees
+    # hanging off a closed core, de Bruijn chains
+    for i in range({"quick": 500, "thorough": 6000, "search": 400}[tier]):
+        k = rng.choice([3, 3, 4] if kmax >= 4 else [2, 3, 3])
+        mask = gen.funnel_mask(rng, k) if i % 4 else (gen.core_with_tails(rng, k) if i % 8 else gen.chain_mask(rng, k))
+        yield "generated", {"k": k, "mask": mask, "t": 1, "vsel": rng.random(), "bits": gen.message(rng, 24),
+                            "fast": rng.random() < 0.3, "table_seed": None}
     for _ in range(n // 10):
         k = rng.randint(1, 2)
         rows = gen.arc_subset(rng, k, keep=rng.choice([0.2, 0.4, 0.6]))
@@ -98,6 +105,10 @@ def build(stream, p):
             return "raised %r" % (raw,)
         s = raw
         n = len(rows)
+        for u in range(n):
+            for w in rows[u]:
+                if w >= 0 and not any(x >= 0 for x in rows[w]):
+                    return "the generated graph has a dead end: arc %d -> %d into a vertex without arcs" % (u, w)
         if not gen.is_walk(rows, v0, s):
             return "strand %r is not a walk of the generated graph" % (s,)
         if reads.get("n") != 2 * len(s):
